@@ -47,7 +47,7 @@ def run(ctx):
     return "model_checking"
 '''
 D = {
-"c02": dict(post="", extra="",title="C02 -- channels deliver each item exactly once, in order, to the right channel",
+"c02": dict(post='ctx.coverage["multichannel_real"] = multi', extra='multi = gc.multi_part(ctx, ["C02.", "C03."])',title="C02 -- channels deliver each item exactly once, in order, to the right channel",
   cfgs='["GW_data", "GW_cb"] if ctx.quick else ["GW_data", "GW_cb", "GW_cb_recv", "GW_data_big"]', mutants='[]',
   fam="c02_programs(rng, 10 if ctx.quick else 80)", own='["C02.", "C10.callback-item", "C10.callback-missed", "C10.endmarker-before-last-item", "C08.", "C18.channel-id-handed-out-twice"]',
   line='["send", "_send", "to_io", "_local_receive", "receive", "setcallback", "new", "from_io"]',
@@ -61,7 +61,7 @@ D = {
   nontriv='lambda evs: any(e["ev"] == "ret" and e["op"] == "receive" and e["res"] == "EOF" for e in evs) and any(e["ev"] == "ret" and e["op"] in ("send", "isclosed") for e in evs)',
   rule="generated send/close histories (explicit close, close with error, end of remote_exec, dropping the last reference, concurrent close on both sides) with 1-3 blocked receivers and waitclose callers that probe isclosed/send/waitclose/close/receive after having observed the close",
   ntext="non-trivial = some receiver saw EOFError and a probe (send/isclosed) followed", known="None"),
-"c07": dict(post='ctx.coverage["channel_file_errors"] = cferr', extra='cferr = gc.chanfile_error_part(ctx, rng)\n    jobs += gc.jobs_for([p for p in progs if len(p["threads"]) == 1], 6 if ctx.quick else 40, 2, ctx.seed + 1, [{"post_yields": True, "worker_backend": "main_thread_only"}])',title="C07 -- remote failures surface as RemoteError on that channel only",
+"c07": dict(post='ctx.coverage["channel_file_errors"] = cferr\n    ctx.coverage["multichannel_real"] = multi', extra='cferr = gc.chanfile_error_part(ctx, rng)\n    multi = gc.multi_part(ctx, ["C07."])\n    jobs += gc.jobs_for([p for p in progs if len(p["threads"]) == 1], 6 if ctx.quick else 40, 2, ctx.seed + 1, [{"post_yields": True, "worker_backend": "main_thread_only"}])',title="C07 -- remote failures surface as RemoteError on that channel only",
   cfgs='["GW_err"] if ctx.quick else ["GW_err", "GW_cb_recv", "GW_data_big", "GW_all_big"]', mutants='[]',
   fam="c07_programs(rng, 8 if ctx.quick else 60)", own='["C07.", "C14.false-deadlock"]',
   line='["_local_receive", "_local_close", "close", "waitclose", "receive", "_getremoteerror", "executetask", "_executetask"]',
